@@ -1099,6 +1099,12 @@ func (s *Store[K, V]) Recover(version uint64, reader io.Reader) error {
 			// the cached clock was taken relative to the old origin: reads
 			// must not trust it until the next tick refreshes it
 			s.timerwheel.clock.RefreshNowCache()
+			// a snapshot saved by a younger cache moves the clock back: rewind
+			// the wheel cursor as well, or nothing expires until the clock has
+			// caught up with it again
+			if now := s.timerwheel.clock.NowNano(); now < s.timerwheel.nanos {
+				s.timerwheel.nanos = now
+			}
 			s.policy.sketch.EnsureCapacity(uint(m.Total))
 		case 2: // window lru
 			entryDecoder := gob.NewDecoder(reader)
